@@ -69,6 +69,10 @@ def gen_spline(rng, S, tier, allow_per=True, nmax=None):
     nmax = nmax or (12 if tier == "quick" else 40)
     n = rng.choice([3, 3, 4, 4, 5, 6, 8, nmax])
     trailing = gen.trailing_shape(rng, 2)
+    if n <= 8 and rng.random() < 0.12:
+        # a last axis as long as the x axis, or one shorter (seeds C02-r10m1, C16-r10m1: a per-interval / per-knot vector `broadcast` against
+        # the data aligns with the *trailing* axis whenever the lengths happen to agree)
+        trailing = rng.choice([[n], [n - 1], [2, n], [n - 1, 1]])
     shape = [n] + trailing
     L = gen.lanes_of(shape)
     if S == "Q":
